@@ -12,12 +12,7 @@ TRANSLATION = ['Covariance', 'ITML', 'ITML_Supervised', 'MMC',
                'LSML_Supervised', 'SCML', 'SCML_Supervised', 'LMNN']
 DECLINED = {'NCA': 'soft-max weights cancel the translation only through '
                    'zero row sums of the weight matrix',
-            'MLKR': 'same cancellation as NCA',
-            'LFDA': 'scatter matrices cancel through sum x x^T - (sum x)'
-                    '(sum x)^T / n',
-            'RCA': 'masked in-place centring covers every row only because '
-                   'every chunk label lies in 0..max (a runtime fact)',
-            'RCA_Supervised': 'as RCA'}
+            'MLKR': 'same cancellation as NCA'}
 SWAP = ['ITML', 'MMC', 'SDML', 'LSML']
 
 
@@ -34,11 +29,43 @@ def check(repo, rep, tier):
            'swap; products / outer products / quadratic forms of an even '
            'number of odd factors are even; the de-duplicated point set is '
            'even; the fitted state must be even')
+  # RCA: the in-place centring is certified by C09's structural rules
+  from . import c09
+  before = len(rep.obs)
+  c09.rule_rca(repo, rep)
+  rca_ok = all(o['status'] == 'derived' for o in rep.obs[before:]
+               if o['rule'] in ('R-FORM:rca-chunk-centering',
+                                'R-FORM:rca-every-chunk-centred'))
+  Rr = 'EQV:rca-centring-certificate'
+  rep.rule(Rr, 'RCA uses the data only through rows with their own chunk '
+           'mean subtracted (each chunk centred with the mean of exactly its '
+           'rows, every chunk id visited, rows with chunk -1 dropped) and '
+           'through np.cov: both are translation invariant')
+  rep.add(Rr, 'rca._chunk_mean_centering', 'derived' if rca_ok else
+          'unknown', '', '' if rca_ok else 'the centring rules of C09 do not '
+          'all hold: translation invariance of RCA not certified')
+  # LFDA: the scatter statements equal the pairwise-defined scatters
+  before = len(rep.obs)
+  c09.rule_lfda_scatter(repo, rep)
+  lf = [o for o in rep.obs[before:]]
+  lf_ok = lf and all(o['status'] == 'derived' for o in lf)
+  Rl = 'EQV:lfda-pairwise-certificate'
+  rep.rule(Rl, 'LFDA\'s scatter accumulation equals 1/2 sum_ij W_ij (x_i - '
+           'x_j)(x_i - x_j)^T (formula rule of C09), which depends on the '
+           'points only through their differences and the affinities, '
+           'themselves functions of pairwise distances')
+  rep.add(Rl, 'LFDA.fit', 'derived' if lf_ok else
+          ('refuted' if any(o['status'] == 'refuted' for o in lf)
+           else 'unknown'), '', '' if lf_ok else 'the accumulation is not '
+          'the pairwise-defined scatter: translation invariance of LFDA is '
+          'not certified (%s)' % '; '.join(o['detail'][:120] for o in lf
+                                           if o['status'] != 'derived'))
   n = 0
-  for cname in TRANSLATION:
+  for cname in TRANSLATION + ['RCA', 'RCA_Supervised']:
     c = repo.get_class(cname)
     f = repo.resolve_method(c, 'fit')
     dom = EqvDomain(tuple_learner=cname in SWAP)
+    dom.centring_certified = rca_ok
     Engine(repo, dom, self_cls=c).run(f)
     rep.analysed(f)
     key = cname + '.fit'
@@ -76,4 +103,4 @@ def check(repo, rep, tier):
       else:
         rep.derived(Rs, key, site(f))
   rep.notes['translation_not_decided_for'] = DECLINED
-  rep.floor('estimators typed for translation invariance', n, 11)
+  rep.floor('estimators typed for translation invariance', n, 13)
